@@ -298,6 +298,43 @@ def oneBlock (addr : Nat) (ops : List Op) : Function :=
 def straight (addr len : Nat) (ops : List Op) : BTR :=
   { addr := addr, length := len, instrs := [oneBlock addr ops], succs := [(addr + len, none)] }
 
+/-! ### graphs with a conditional: cmovcc and jcc -/
+
+def blockOf (addr idx : Nat) (ops : List Op) : Block :=
+  { index := idx, nextInstr := ops.length, instrs := mkInstrs addr 0 ops }
+
+/-- `cmovcc`: head (0) → not-taken block (2) on `gF` / taken block (3) on `gT`; both fall to the tail (1), the exit -/
+def diamondFn (addr : Nat) (headOps falseOps trueOps : List Op) (gF gT : Expr) : Function :=
+  { addr := addr
+    cfg := { blocks := [blockOf addr 0 headOps, blockOf addr 1 [], blockOf addr 2 falseOps, blockOf addr 3 trueOps]
+             edges := [{ head := 0, tail := 2, cond := some gF }, { head := 0, tail := 3, cond := some gT },
+                       { head := 2, tail := 1 }, { head := 3, tail := 1 }]
+             entry := some 0, exit := some 1, nextIndex := 4, nextTemp := 0 } }
+
+/-- `jcc`: head (0) → tail (1, the exit) on `gF` / the block holding the branch placeholder (2) on `gT`, which falls to the tail -/
+def triFn (addr : Nat) (headOps trueOps : List Op) (gF gT : Expr) : Function :=
+  { addr := addr
+    cfg := { blocks := [blockOf addr 0 headOps, blockOf addr 1 [], blockOf addr 2 trueOps]
+             edges := [{ head := 0, tail := 1, cond := some gF }, { head := 0, tail := 2, cond := some gT },
+                       { head := 2, tail := 1 }]
+             entry := some 0, exit := some 1, nextIndex := 3, nextTemp := 0 } }
+
+/-- `cmovcc r, r`: in 64-bit mode a 32-bit destination is rewritten (zero-extended) on the not-taken path too -/
+def liftCmov (mode : Mode) (c : Nat) (addr len : Nat) (d s : GReg) : Res BTR := do
+  let cc ← ccExpr c
+  let ncc ← Expr.mkBin .cmpeq cc (Expr.ec 0 1)
+  let src ← regGet mode s
+  let taken ← regSet mode d src
+  let notTaken : List Op ← if mode = .amd64 ∧ d.bits = 32 then do pure [← regSet mode d (← regGet mode d)] else pure []
+  pure { addr := addr, length := len, instrs := [diamondFn addr [.nop] notTaken [taken] ncc cc], succs := [(addr + len, none)] }
+
+/-- `jcc target` (immediate target): the graph does nothing, the successors carry the condition -/
+def liftJcc (c : Nat) (addr len target : Nat) : Res BTR := do
+  let cc ← ccExpr c
+  let ncc ← Expr.mkBin .cmpeq cc (Expr.ec 0 1)
+  pure { addr := addr, length := len, instrs := [triFn addr [.nop] [.nop] ncc cc],
+         succs := [(addr + len, some ncc), (target, some cc)] }
+
 def liftRR (mode : Mode) (m : String) (addr len : Nat) (d s : GReg) : Res BTR := do
   let ops ← opsRR mode m addr d s
   pure (straight addr len ops)
@@ -328,7 +365,14 @@ def liftIns (i : Ins) : Option (Res BTR) :=
   if i.lock then none
   else match i.ops with
   | [.reg d, .reg s] =>
-    if aluMnemonics.contains i.mnem ∧ d.bits = s.bits then some (liftRR i.mode i.mnem i.addr i.len d s) else none
+    if aluMnemonics.contains i.mnem ∧ d.bits = s.bits then some (liftRR i.mode i.mnem i.addr i.len d s)
+    else match splitCc i.mnem with
+      | some ("cmov", c) => if d.bits = s.bits then some (liftCmov i.mode c i.addr i.len d s) else none
+      | _ => none
+  | [.imm t _] =>
+    match splitCc i.mnem with
+    | some ("j", c) => some (liftJcc c i.addr i.len t)
+    | _ => none
   | [.reg d, .imm v bytes] =>
     if aluMnemonics.contains i.mnem ∧ 8 * bytes = d.bits then some (liftRI i.mode i.mnem i.addr i.len d v bytes) else none
   | [.reg d] =>
